@@ -39,6 +39,7 @@ type serviceSpec struct {
 	Schema  *ast.Schema
 	Lookups map[string]lookupSpec // boundary type -> lookup
 	Version string
+	Legacy  bool // written in the former Node syntax
 }
 
 type federation struct {
@@ -86,6 +87,10 @@ func typeString(t *ast.Type) string { return t.String() }
 func isRootName(n string) bool { return n == "Query" || n == "Mutation" || n == "Subscription" }
 
 // splitFederation builds the service schemas. arrayLookups lists "Svc/Type" pairs using the array form; "*" = all.
+// splitLegacyPick, when set, says which services are written in the former federation syntax: interface Node { id: ID! },
+// boundary types implementing Node (first in the list), and Query.node(id: ID!): Node instead of marked lookup fields.
+var splitLegacyPick func(svc string) bool
+
 func splitFederation(annotated string) (*federation, error) {
 	mono, gerr := gqlparser.LoadSchema(&ast.Source{Name: "mono", Input: annotationDecls + annotated})
 	if gerr != nil {
@@ -224,6 +229,20 @@ func splitFederation(annotated string) (*federation, error) {
 		var sb strings.Builder
 		sb.WriteString("directive @boundary on OBJECT | FIELD_DEFINITION\ndirective @namespace on OBJECT\n")
 		sb.WriteString("type Service { name: String! version: String! schema: String! }\n")
+		legacy := false
+		if splitLegacyPick != nil && splitLegacyPick(sn) && mono.Types["Node"] == nil {
+			for bt := range fed.Boundary {
+				for _, x := range fed.TypeSvcs[bt] {
+					if x == sn && fed.Boundary[bt] {
+						legacy = true
+					}
+				}
+			}
+		}
+		if legacy {
+			sb.WriteString("interface Node { id: ID! }\n")
+			spec.Legacy = true
+		}
 		for _, tn := range typeNames {
 			t := mono.Types[tn]
 			if strings.HasPrefix(tn, "__") || t.BuiltIn {
@@ -249,7 +268,10 @@ func splitFederation(annotated string) (*federation, error) {
 						fields = append(fields, "  "+fieldSDL(f))
 					}
 				}
-				if tn == "Query" {
+				if tn == "Query" && legacy {
+					fields = append(fields, "  node(id: ID!): Node")
+				}
+				if tn == "Query" && !legacy {
 					for _, bt := range typeNames {
 						if !fed.Boundary[bt] {
 							continue
@@ -294,6 +316,9 @@ func splitFederation(annotated string) (*federation, error) {
 					continue
 				}
 				var ifaces []string
+				if legacy {
+					ifaces = append(ifaces, "Node")
+				}
 				for _, i := range t.Interfaces {
 					for _, x := range fed.TypeSvcs[i] {
 						if x == sn {
